@@ -17,6 +17,10 @@ type scanner struct {
 	negative bool
 }
 
+// maxExponent limits the absolute value of an exponent. The number is stored
+// as its expanded digit string, so the exponent bounds memory and time.
+const maxExponent = 1000000
+
 func newScanner() *scanner {
 	s := &scanner{}
 	s.stateFn = s.stateOnSearchStart
@@ -72,6 +76,9 @@ func (s *scanner) setExp(value bytes.Bytes) error {
 	exp, err := value.SubLow(s.expBegin).ParseInt()
 	if err != nil {
 		return err
+	}
+	if exp > maxExponent || exp < -maxExponent {
+		return errs.ErrIncorrectExponentValue.F()
 	}
 	// example with negative exp: 12.34E-1 = 1.234; exp = -1; intLen = 2 + (-1) = 1
 	// example with positive exp: 12.34E+1 = 123.4; exp =  1; intLen = 2 + 1    = 3
